@@ -28,7 +28,7 @@ EXPLANATION = (
 )
 NOT_DECIDED = ["identity of member content with direct extraction (bytes, decompression correctness of LZMA/LZMA2/deflate)", "7z header parsing arithmetic (pack sizes, substream sizes, file-to-folder map) as values"]
 TRUSTED = ["zipfile.infolist / tarfile.getmembers return members in archive order", "CFG / lexical path conditions"]
-FLOORS = {"C10-EXACT": 8, "C10-CODEC": 6, "C10-LABEL": 10, "C10-STEP": 2, "C10-ORDER": 4, "C10-SIB": 6, "C10-FOLDER": 1, "C10-DISPATCH": 6}
+FLOORS = {"C10-EXACT": 8, "C10-CODEC": 6, "C10-LABEL": 10, "C10-STEP": 2, "C10-ENDIAN": 4, "C10-ORDER": 4, "C10-SIB": 6, "C10-FOLDER": 1, "C10-DISPATCH": 6}
 
 READS = {"_extract_from_zip_optimized": ("read", "info"), "_extract_from_tar_optimized": ("extractfile", "member")}  # method that reads one member
 
@@ -241,6 +241,37 @@ def rule_step(ctx: Ctx) -> RuleReport:
                 visit(st.body, guards, in_handler)
 
     visit(pe.node.body, [], False)
+    return rep
+
+
+def rule_endian(ctx: Ctx) -> RuleReport:
+    """7z stores every multi-byte integer little-endian (7zFormat.txt: 'all numbers are little endian', UINT64 coding included)."""
+    rep = RuleReport("C10-ENDIAN", "every integer conversion of the 7z reader is little-endian, as the format specifies")
+    m = ctx.p.module(SZ)
+    for fi in m.functions.values():
+        for c in ast.walk(fi.node):
+            if not isinstance(c, ast.Call):
+                continue
+            d = dotted(c.func) or ""
+            if d.startswith("struct.") and d.split(".")[-1] in ("unpack", "unpack_from", "pack", "pack_into", "Struct", "iter_unpack", "calcsize") and c.args:
+                fmt = ctx.folder.fold(fi.module, c.args[0])
+                if not isinstance(fmt, str):
+                    raise AnalysisError(f"C10-ENDIAN: struct format of `{short(c, 50)}` in {fi.key} is not a constant")
+                rep.unit(fi.key)
+                body = fmt.lstrip("<>=!@")
+                multi = any(ch in "hHiIlLqQnNefd" for ch in body)
+                if fmt[:1] == "<" or not multi and fmt[:1] not in (">", "!"):
+                    rep.ok({"fn": fi.qual, "format": fmt})
+                else:
+                    rep.fail(Finding("C10-ENDIAN", SZ, fi.qual, f"struct format {fmt!r}", f"`{short(c, 60)}` converts a multi-byte integer with byte order {fmt[:1]!r}: the 7z format is little-endian throughout, sizes and offsets above 255 are decoded with their bytes swapped", line=c.lineno))
+            elif isinstance(c.func, ast.Attribute) and c.func.attr in ("from_bytes", "to_bytes") and norm(c.func.value) == "int" or (isinstance(c.func, ast.Attribute) and c.func.attr == "to_bytes"):
+                order = next((k.value for k in c.keywords if k.arg == "byteorder"), c.args[1] if len(c.args) > 1 else None)
+                ov = ctx.folder.fold(fi.module, order) if order is not None else "big"
+                rep.unit(fi.key)
+                if ov == "little":
+                    rep.ok({"fn": fi.qual, "conversion": short(c, 50)})
+                else:
+                    rep.fail(Finding("C10-ENDIAN", SZ, fi.qual, f"{c.func.attr} byteorder {ov!r}", f"`{short(c, 60)}` converts with byte order {ov!r}: the 7z format is little-endian throughout (the continuation bytes of a variable-length number are its low-order bytes, least significant first); numbers above 16383 are decoded with their bytes swapped", line=c.lineno))
     return rep
 
 
@@ -644,4 +675,4 @@ def rule_codec(ctx: Ctx) -> RuleReport:
     return rep
 
 
-RULES = [rule_label, rule_step, rule_order, rule_sib, rule_folder, rule_dispatch, rule_exact, rule_codec]
+RULES = [rule_label, rule_step, rule_endian, rule_order, rule_sib, rule_folder, rule_dispatch, rule_exact, rule_codec]
